@@ -460,7 +460,14 @@ func (fr *frame) eval1(v ssa.Value) Val {
 		return Val{K: KTuple, Elems: []Val{d, d, d}}
 	case *ssa.Select:
 		return top
-	case *ssa.Global, *ssa.FreeVar, *ssa.Builtin:
+	case *ssa.Global:
+		// only the two error sentinels of strconv are given an identity: the
+		// parsers compare the cause of a conversion failure with them
+		if x.Pkg != nil && x.Pkg.Pkg.Path() == "strconv" && (x.Name() == "ErrRange" || x.Name() == "ErrSyntax") {
+			return Val{K: KPtr, S: "g:strconv." + x.Name()}
+		}
+		return top
+	case *ssa.FreeVar, *ssa.Builtin:
 		return top
 	}
 	return top
@@ -733,6 +740,11 @@ func (fr *frame) binop(x *ssa.BinOp) Val {
 			return bv((a.B == b.B) == (x.Op == token.EQL))
 		case a.K == KNil && b.K == KNil:
 			return bv(x.Op == token.EQL)
+		case a.K == KIface && b.K == KIface && a.Inner != nil && b.Inner != nil && a.Inner.K == KPtr && b.Inner.K == KPtr &&
+			(x.Op == token.EQL || x.Op == token.NEQ):
+			// two interfaces holding pointers to modelled objects: equal iff the same object
+			same := a.Inner.S == b.Inner.S && types.Identical(a.T, b.T)
+			return bv(same == (x.Op == token.EQL))
 		case (a.K == KNil && (b.K == KPtr || b.K == KSlice && b.Len > 0 || b.K == KIface || b.K == KFunc)) ||
 			(b.K == KNil && (a.K == KPtr || a.K == KSlice && a.Len > 0 || a.K == KIface || a.K == KFunc)):
 			if x.Op == token.EQL || x.Op == token.NEQ {
@@ -1300,6 +1312,77 @@ func (fr *frame) pureCall(fn *ssa.Function, args []Val) (Val, bool) {
 			}
 			return Val{K: KInt, I: big.NewInt(int64(c)), Dep: dep}, true
 		}
+	case "strconv.Atoi", "strconv.ParseInt", "strconv.ParseUint", "strconv.ParseFloat", "strconv.ParseBool":
+		if !allKnown || args[0].K != KStr {
+			return Val{}, false // unknown text: the call stays a named unknown
+		}
+		iarg := func(i int) (int, bool) {
+			if i < len(args) && args[i].K == KInt && args[i].I.IsInt64() {
+				return int(args[i].I.Int64()), true
+			}
+			return 0, false
+		}
+		var res Val
+		var err error
+		switch fn.Name() {
+		case "Atoi":
+			var n int64
+			n, err = strconv.ParseInt(args[0].S, 10, 64) // int is 64 bits on the assumed platform
+			res = int64Val(n)
+		case "ParseInt":
+			base, ok1 := iarg(1)
+			bits, ok2 := iarg(2)
+			if !ok1 || !ok2 {
+				return Val{}, false
+			}
+			var n int64
+			n, err = strconv.ParseInt(args[0].S, base, bits)
+			res = int64Val(n)
+		case "ParseUint":
+			base, ok1 := iarg(1)
+			bits, ok2 := iarg(2)
+			if !ok1 || !ok2 {
+				return Val{}, false
+			}
+			var n uint64
+			n, err = strconv.ParseUint(args[0].S, base, bits)
+			res = Val{K: KInt, I: new(big.Int).SetUint64(n)}
+		case "ParseFloat":
+			bits, ok := iarg(1)
+			if !ok {
+				return Val{}, false
+			}
+			var f float64
+			f, err = strconv.ParseFloat(args[0].S, bits)
+			res = floatVal(f)
+		case "ParseBool":
+			var b bool
+			b, err = strconv.ParseBool(args[0].S)
+			res = boolVal(b)
+		}
+		res.Dep = dep
+		ev := Val{K: KNil}
+		if err != nil {
+			ne, isNum := err.(*strconv.NumError)
+			nt := fr.in.Prog.namedType("strconv", "NumError")
+			st := fr.in.Prog.namedType("errors", "errorString")
+			if !isNum || nt == nil || st == nil || (ne.Err != strconv.ErrRange && ne.Err != strconv.ErrSyntax) {
+				return Val{K: KTuple, Elems: []Val{res, topDep(dep)}}, true
+			}
+			cause := "g:strconv.ErrSyntax"
+			if ne.Err == strconv.ErrRange {
+				cause = "g:strconv.ErrRange"
+			}
+			obj := fmt.Sprintf("strconv.NumError#%s:%q", fn.Name(), args[0].S)
+			fr.allocate(obj)
+			inner := Val{K: KPtr, S: cause + "!"}
+			fr.store(Val{K: KPtr, S: obj + ".Err"}, Val{K: KIface, T: types.NewPointer(st), Inner: &inner}, nil)
+			fr.store(Val{K: KPtr, S: obj + ".Func"}, strVal(ne.Func), nil)
+			fr.store(Val{K: KPtr, S: obj + ".Num"}, strVal(ne.Num), nil)
+			op := Val{K: KPtr, S: obj}
+			ev = Val{K: KIface, T: types.NewPointer(nt), Inner: &op, Dep: dep}
+		}
+		return Val{K: KTuple, Elems: []Val{res, ev}}, true
 	case "strconv.Itoa":
 		if allKnown && args[0].K == KInt {
 			return Val{K: KStr, S: args[0].I.String(), Dep: dep}, true
